@@ -345,6 +345,8 @@ type violation struct {
 	EventHash uint64   `json:"event_hash"`
 	Reruns    int      `json:"minimise_reruns"`
 	OrigCells int      `json:"orig_cells"`
+	OrigScen  []uint32 `json:"orig_scen,omitempty"`
+	OrigDyn   []uint32 `json:"orig_dyn,omitempty"`
 	Harness   string   `json:"harness"`
 }
 
@@ -366,6 +368,7 @@ type summary struct {
 	Violations  []violation        `json:"violations"`
 	ClassCounts map[string]int     `json:"class_counts"`
 	Infra       []string           `json:"infra"`
+	NonDet      []string           `json:"nondeterminism"`
 	DetChecked  int                `json:"determinism_checked"`
 	DetFailed   int                `json:"determinism_failed"`
 	MaxSteps    int                `json:"max_steps"`
@@ -669,7 +672,7 @@ func runCheck(id, tier string) int {
 	// merge
 	agg := &summary{Probes: map[string]int{}, Faults: map[string]int{}, FaultRuns: map[string]int{}, Strategies: map[string]int{}, Verdicts: map[string]int{}, ClassCounts: map[string]int{}}
 	pairs := map[uint64]struct{}{}
-	var infra []string
+	var infra, nondet []string
 	var viols []violation
 	for _, br := range results {
 		if br.exit == 3 {
@@ -719,6 +722,7 @@ func runCheck(id, tier string) int {
 			agg.Samples = append(agg.Samples, s.Samples...)
 		}
 		infra = append(infra, s.Infra...)
+		nondet = append(nondet, s.NonDet...)
 		viols = append(viols, s.Violations...)
 		if s.HashFile != "" {
 			if b, err := os.ReadFile(s.HashFile); err == nil {
@@ -759,23 +763,40 @@ func runCheck(id, tier string) int {
 			EventHash: v.EventHash, TreeFP: binfo.Fingerprint, Engine: "vsim-1", Harness: v.Harness,
 			Minimise: fmt.Sprintf("%d tape cells before, %d after, %d re-runs", v.OrigCells, len(v.Scen)+len(v.Dyn), v.Reruns)}
 		tmpRF := filepath.Join(scratch, "replay-in.json")
-		writeJSON(tmpRF, rf)
-		res, code, errText := replayOnce(filepath.Join(dir, v.Harness+".test"), p, tmpRF, scratch)
-		if code != 0 || res == nil {
-			die(2, "fresh-process replay of a %s violation failed to run: %s", v.Class, errText)
+		// Fresh-process replay.  Deterministic code reproduces at the first attempt; if
+		// the code under test is itself nondeterministic (map iteration racing with a
+		// writer, say) a few attempts are allowed, then the un-minimised tape is tried.
+		var res map[string]any
+		attempts, reproduced := 0, false
+		for _, cand := range [][2][]uint32{{v.Scen, v.Dyn}, {v.OrigScen, v.OrigDyn}} {
+			if cand[0] == nil && cand[1] == nil && attempts > 0 {
+				continue
+			}
+			rf.Scen, rf.Dyn = cand[0], cand[1]
+			writeJSON(tmpRF, rf)
+			for k := 0; k < 5 && !reproduced; k++ {
+				attempts++
+				r, code, errText := replayOnce(filepath.Join(dir, v.Harness+".test"), p, tmpRF, scratch)
+				if code != 0 || r == nil {
+					die(2, "fresh-process replay of a %s violation failed to run: %s", v.Class, errText)
+				}
+				if cls, _ := r["class"].(string); cls == v.Class {
+					res, reproduced = r, true
+				}
+			}
+			if reproduced {
+				break
+			}
 		}
-		cls, _ := res["class"].(string)
-		var eh uint64
-		if f, ok := res["event_hash"].(float64); ok {
-			eh = uint64(f)
+		if !reproduced {
+			die(2, "violation %s (run %d) did not reproduce in a fresh process in %d attempts: not reported", v.Class, v.RunIdx, attempts)
+		}
+		if attempts > 1 {
+			rf.Minimise += fmt.Sprintf("; the code under test behaves nondeterministically: reproduced at fresh-process attempt %d", attempts)
 		}
 		if raw, ok := res["event_hash_str"].(string); ok {
-			eh, _ = strconv.ParseUint(raw, 10, 64)
+			rf.EventHash, _ = strconv.ParseUint(raw, 10, 64)
 		}
-		if cls != v.Class {
-			die(2, "violation %s (run %d) did not reproduce in a fresh process (got class %q): not reported", v.Class, v.RunIdx, cls)
-		}
-		_ = eh
 		rf.Scenario, rf.Faults = res["scenario"], res["faults"]
 		if m, ok := res["msg"].(string); ok {
 			rf.Msg = m
@@ -807,6 +828,14 @@ func runCheck(id, tier string) int {
 		exit = 1
 	}
 
+	if len(nondet) > 0 && nViol == 0 && len(knownHit) == 0 {
+		// the same tape gave two different event logs and no violation explains it:
+		// the simulation (or the code under test) is not deterministic — not a verdict
+		for _, m := range nondet {
+			fmt.Fprintln(os.Stderr, "INFRA:", m)
+		}
+		die(2, "nondeterministic runs in check %s (not a property verdict)", id)
+	}
 	// evidence
 	wallS := time.Since(t0).Seconds()
 	samples := []any{}
